@@ -264,6 +264,14 @@ pub struct TimingFacts {
 /// output / inout port bits and RAM write port pins (address, data, enable,
 /// mask).
 pub fn check_timing(m: &GateModule, lib: &dyn CellLibrary, rep: &TimingReport) -> (Vec<Finding>, TimingFacts) {
+    check_timing_opt(m, lib, rep, true)
+}
+
+/// `check_path = false`: only delay, end point and depth (used for netlists
+/// with `Buf` cells, which the synthesizer never returns: a zero-delay Buf fed
+/// by a start point gets no predecessor in `compute_timing_top_n`, so the
+/// printed path may begin at the Buf output — cosmetic, not asserted).
+pub fn check_timing_opt(m: &GateModule, lib: &dyn CellLibrary, rep: &TimingReport, check_path: bool) -> (Vec<Finding>, TimingFacts) {
     let mut out = vec![];
     let mut facts = TimingFacts::default();
     let t = match gate_eval::topo(m) {
@@ -359,6 +367,9 @@ pub fn check_timing(m: &GateModule, lib: &dyn CellLibrary, rep: &TimingReport) -
                 rep.critical_path_depth, dep[e as usize], facts.global_max_depth
             ),
         ));
+    }
+    if !check_path {
+        return (out, facts);
     }
     // the reported path is a path of the netlist with our arrival times
     let steps = &rep.critical_path[..rep.critical_path.len() - 1];
